@@ -400,6 +400,9 @@ def sd_queue_contracts(dual=False):
                            chain=True,
                            doc="C19: a best-interval request returns (and removes) an entry whose queued characteristic is "
                                "maximal; an empty queue is refilled first"))
+    else:
+        cs.append(dual_best_contract(False))
+        cs.append(dual_best_contract(True))
     return cs
 
 
@@ -423,3 +426,73 @@ def refill_loop(dual=False):
             ([LQ + ".gitems", LQ + ".gkeys", LQ + ".glen", LQ + ".gcnt"] if dual else [])
     return LoopSpec(ghost_before=["gj = 0"], ghost_body_end=["gj = gj + 1"], invariant=inv,
                     modifies=qmods + ["self.curIter"], variant="self.gn - gj")
+
+
+def loop_specs(cls, dual):
+    return {(F_SD, cls + ".FindDataItemByOneDimensionalPoint", 0): find_loop(),
+            (F_SD, cls + ".RefillQueue", 0): refill_loop(dual),
+            (F_SD, "SearchData.FindDataItemByOneDimensionalPoint", 0): find_loop(),
+            (F_SD, "SearchData.RefillQueue", 0): refill_loop(False),
+            (F_SD, "SearchDataDualQueue.GetDataItemWithMaxGlobalR", 0): dual_best_loop(False),
+            (F_SD, "SearchDataDualQueue.GetDataItemWithMaxLocalR", 0): dual_best_loop(True)}
+
+
+# ----------------------------------------------------------------------------- dual-queue variant: best request with lazy invalidation
+def qnn(q):
+    return "forall(0, %s.glen, lambda qi: %s.gitems[qi] is not None)" % (q, q)
+
+
+def dual_best_contract(local=False):
+    """SearchDataDualQueue.GetDataItemWithMaxGlobalR / GetDataItemWithMaxLocalR: entries whose queued characteristic is no
+    longer the item's current one are skipped (lazy invalidation); an exhausted queue is refilled."""
+    q, oq = (LQ, GQ) if local else (GQ, LQ)
+    attr = "localR" if local else "globalR"
+    name = "GetDataItemWithMaxLocalR" if local else "GetDataItemWithMaxGlobalR"
+    unb = ["%s.maxlen == 0" % GQ, "%s.maxlen == 0" % LQ,
+           "self._SearchDataDualQueue__RLocalQueue is not None and %s is not None and %s != %s" % (LQ, LQ, GQ)]
+    qmods = [GQ + ".gitems", GQ + ".gkeys", GQ + ".glen", GQ + ".gcnt", LQ + ".gitems", LQ + ".gkeys", LQ + ".glen", LQ + ".gcnt"]
+    setup = ["g0len = %s.glen" % q, "g0items = %s.gitems" % q, "g0keys = %s.gkeys" % q,
+             "g1len = %s.glen" % oq, "g1items = %s.gitems" % oq, "g1keys = %s.gkeys" % oq]
+    return Contract(
+        F_SD, "SearchDataDualQueue." + name, params={}, result="ref:SearchDataItem?", modifies=qmods + ["self.curIter"],
+        allocates=False, setup=setup,
+        requires=WF + depq_inv(GQ) + depq_inv(LQ) + unb + [qnn(GQ), qnn(LQ)],
+        ghost_exit=["gkey = bestItem[1]"], ghost_results={"gkey": "real", "gj": "int", "grefilled": "bool"},
+        ensures=depq_inv(GQ) + depq_inv(LQ) + [qnn(GQ), qnn(LQ),
+                 "result is not None",
+                 # the returned entry is current (C19: maximal among entries whose characteristic is still current)
+                 "gkey == result.%s" % attr,
+                 "implies(not grefilled, 0 <= gj and gj < g0len and result is g0items[gj] and gkey == g0keys[gj])",
+                 "implies(not grefilled, forall(0, gj, lambda qi: g0keys[qi] != g0items[qi].%s))" % attr,
+                 "implies(not grefilled, forall(gj, g0len, lambda qi: g0keys[qi] <= gkey))",
+                 "implies(not grefilled, {q}.glen == g0len - gj - 1 and forall(0, {q}.glen, lambda qi: "
+                 "{q}.gitems[qi] is g0items[qi + gj + 1] and {q}.gkeys[qi] == g0keys[qi + gj + 1]))".format(q=q),
+                 "implies(not grefilled, {o}.glen == g1len and {o}.gitems == g1items and {o}.gkeys == g1keys)".format(o=oq),
+                 "implies(grefilled, %s)" % member("result"),
+                 "implies(grefilled, forall(0, self.gn, lambda k: self.gseq[k].%s <= result.%s))" % (attr, attr)],
+        doc="C19 (dual queue): a best-interval request returns an entry whose characteristic is current and maximal among the "
+            "current entries; stale entries are discarded; an exhausted queue is refilled from the items")
+
+
+def dual_best_loop(local=False):
+    q, oq = (LQ, GQ) if local else (GQ, LQ)
+    attr = "localR" if local else "globalR"
+    qmods = [GQ + ".gitems", GQ + ".gkeys", GQ + ".glen", GQ + ".gcnt", LQ + ".gitems", LQ + ".gkeys", LQ + ".glen", LQ + ".gcnt"]
+    inv = depq_inv(GQ) + depq_inv(LQ) + [qnn(GQ), qnn(LQ), "bestItem[0] is not None",
+        "implies(not grefilled, 0 <= gj and gj < g0len and bestItem[0] is g0items[gj] and bestItem[1] == g0keys[gj])",
+        "implies(not grefilled, forall(0, gj, lambda qi: g0keys[qi] != g0items[qi].%s))" % attr,
+        "implies(not grefilled, forall(gj, g0len, lambda qi: g0keys[qi] <= bestItem[1]))",
+        "implies(not grefilled, {q}.glen == g0len - gj - 1 and forall(0, {q}.glen, lambda qi: "
+        "{q}.gitems[qi] is g0items[qi + gj + 1] and {q}.gkeys[qi] == g0keys[qi + gj + 1]))".format(q=q),
+        "implies(not grefilled, {o}.glen == g1len and {o}.gitems == g1items and {o}.gkeys == g1keys)".format(o=oq),
+        # after a refill: stepping stones, then currency and maximality of the entry just taken
+        "implies(grefilled, forall(0, {q}.glen, lambda qi: {q}.gkeys[qi] == {q}.gitems[qi].{a} and "
+        "{q}.gkeys[qi] <= bestItem[0].{a}))".format(q=q, a=attr),
+        "implies(grefilled, forall(0, self.gn, lambda k: self.gseq[k] is bestItem[0] or %s.gcnt[self.gseq[k]] >= 1))" % q,
+        "implies(grefilled, bestItem[1] == bestItem[0].%s and %s)" % (attr, member("bestItem[0]")),
+        "implies(grefilled, forall(0, self.gn, lambda k: self.gseq[k].%s <= bestItem[0].%s))" % (attr, attr)]
+    return LoopSpec(ghost_before=["gj = 0", "grefilled = (g0len == 0)"],
+                    ghost_body_start=["gemp = (%s.glen == 0)" % q],
+                    ghost_body_end=["grefilled = grefilled or gemp", "gj = gj + 1"],
+                    invariant=inv, modifies=qmods + ["self.curIter"],
+                    variant="(0 if grefilled else self.gn + 1) + %s.glen" % q, chain=True)
